@@ -8,7 +8,7 @@ transpose flags) must be exact swaps.
 """
 import ast
 
-from .. import astx, cfg as cfgm
+from .. import astx, pathx, cfg as cfgm
 from ..core import AnalysisError
 from ..engine import rule, describe, selftest, Mutant, Twin
 
@@ -42,21 +42,57 @@ def is_mode_fwd(test):
     return None
 
 
+def _terminates(stmts):
+    return bool(stmts) and isinstance(stmts[-1], (ast.Return, ast.Raise, ast.Continue, ast.Break))
+
+
 def mode_ifs(fn):
-    """[(If stmt, fwd_body, rev_body)] for every `if mode == 'fwd': ... else: ...` in fn."""
+    """[(If stmt, fwd_body, rev_body)] for every mode test in fn.
+
+    Forms: `if mode == 'fwd': A else: B`, `if mode == 'fwd': A elif mode == 'rev': B`, either polarity, and
+    the early-exit form `if <mode test>: A; return` followed by B (B = the rest of the enclosing block)."""
     out = []
     for st in astx.walk_stmts(fn.node.body):
         if isinstance(st, ast.If):
             f = is_mode_fwd(st.test)
             if f is None:
                 continue
+            par = getattr(st, '_parent', None)
+            if isinstance(par, ast.If) and par.orelse == [st] and is_mode_fwd(par.test) is not None:
+                continue        # the elif arm of a mode test already listed
             other = st.orelse
             # `elif mode == 'rev':` form
             if len(other) == 1 and isinstance(other[0], ast.If) and is_mode_fwd(other[0].test) is (not f) \
                     and not other[0].orelse:
                 other = other[0].body
-            out.append((st, st.body if f else other, other if f else st.body))
+            mine = st.body
+            if not other and _terminates(mine) and isinstance(mine[-1], (ast.Return, ast.Continue)) and \
+                    getattr(mine[-1], 'value', None) is None:
+                rest = _rest_of_block(st)
+                if rest:
+                    other = rest
+                    mine = mine[:-1]
+                    if _terminates(other) and isinstance(other[-1], ast.Return) and other[-1].value is None:
+                        other = other[:-1]
+            out.append((st, mine if f else other, other if f else mine))
     return out
+
+
+def _rest_of_block(st):
+    """Statements following *st* in the block that contains it."""
+    par = getattr(st, '_parent', None)
+    if par is None:
+        return []
+    for fld in ('body', 'orelse', 'finalbody'):
+        blk = getattr(par, fld, None)
+        if isinstance(blk, list) and any(x is st for x in blk):
+            i = [k for k, x in enumerate(blk) if x is st][0]
+            return blk[i + 1:]
+    for h in getattr(par, 'handlers', []):
+        if any(x is st for x in h.body):
+            i = [k for k, x in enumerate(h.body) if x is st][0]
+            return h.body[i + 1:]
+    return []
 
 
 # --------------------------------------------------------------------------- subjac
@@ -64,14 +100,41 @@ VIEW_SRC = {'_in_view': ('d_inputs', 'col_slice'), '_out_view': ('d_outputs', 'c
             '_res_view': ('d_residuals', 'row_slice')}
 
 
+def _is_randgen_test(t):
+    """True if t is `randgen is None`, False if `randgen is not None` / `randgen`, else None."""
+    if isinstance(t, ast.Compare) and len(t.ops) == 1 and astx.path(t.left) == 'randgen' and \
+            isinstance(t.comparators[0], ast.Constant) and t.comparators[0].value is None:
+        if isinstance(t.ops[0], (ast.Is, ast.Eq)):
+            return True
+        if isinstance(t.ops[0], (ast.IsNot, ast.NotEq)):
+            return False
+    if isinstance(t, ast.Name) and t.id == 'randgen':
+        return False
+    if isinstance(t, ast.UnaryOp) and isinstance(t.op, ast.Not):
+        r = _is_randgen_test(t.operand)
+        return None if r is None else not r
+    return None
+
+
 def _subjac_form(fn):
-    """Normal form of one _apply_{fwd,rev}_{input,output} body."""
+    """Normal form of one _apply_{fwd,rev}_{input,output} body: (views, (val name, value), update).
+
+    The value local is the one selected on `randgen`; every other read-only local (e.g. a temporary holding
+    the bincount weights) is substituted into the update statement."""
     body = astx.strip_doc(fn.node.body)
     views = {}
     val_def = None
     update = None
+    env = {}
     for st in body:
-        if isinstance(st, ast.If):
+        if isinstance(st, ast.If) and _is_randgen_test(st.test) is not None and len(st.body) == 1 and \
+                len(st.orelse) == 1 and all(isinstance(x, ast.Assign) and len(x.targets) == 1 and
+                                            isinstance(x.targets[0], ast.Name) for x in (st.body[0], st.orelse[0])) \
+                and st.body[0].targets[0].id == st.orelse[0].targets[0].id:
+            # if randgen is None: val = A  else: val = B   ==   val = A if randgen is None else B
+            val_def = (st.body[0].targets[0].id,
+                       ast.IfExp(test=st.test, body=st.body[0].value, orelse=st.orelse[0].value))
+        elif isinstance(st, ast.If):
             for s2 in st.body:
                 if isinstance(s2, ast.Assign) and len(s2.targets) == 1:
                     p = astx.path(s2.targets[0])
@@ -80,13 +143,26 @@ def _subjac_form(fn):
                             astx.callee_attr(c) == 'get_slice' and len(c.args) == 1:
                         views[p.split('.')[-1]] = (astx.path(astx.receiver(c)), astx.path(c.args[0]))
         elif isinstance(st, ast.Assign) and len(st.targets) == 1 and isinstance(st.targets[0], ast.Name):
-            val_def = (st.targets[0].id, st.value)
+            nm = st.targets[0].id
+            if val_def is None and (astx.mentions(st.value, 'randgen') or isinstance(st.value, ast.IfExp)):
+                val_def = (nm, st.value)
+            elif val_def is None and not env and not any(
+                    isinstance(n, ast.Name) and n.id in env for n in astx.walk(st.value)) and \
+                    not any(astx.path(n) in ('self._in_view', 'self._out_view', 'self._res_view')
+                            for n in astx.walk(st.value)):
+                val_def = (nm, st.value)
+            else:
+                env[nm] = pathx._Sub(env).visit(pathx._cp(st.value))
         elif isinstance(st, ast.AugAssign):
             if update is not None:
                 raise AnalysisError(f'{fn.ident}: more than one update statement')
             update = st
+            if env:
+                update = pathx._Sub(env).visit(pathx._cp(st))
     if update is None:
         raise AnalysisError(f'{fn.ident}: no accumulate statement found')
+    if val_def is not None and val_def[0] in env:
+        raise AnalysisError(f'{fn.ident}: value local {val_def[0]} is rebound')
     return views, val_def, update
 
 
@@ -94,6 +170,9 @@ def _val_branches(val_def):
     """The value expression for (randgen is None, randgen given)."""
     name, e = val_def
     if isinstance(e, ast.IfExp):
+        r = _is_randgen_test(e.test)
+        if r is False:
+            return name, [e.orelse, e.body]
         return name, [e.body, e.orelse]
     return name, [e]
 
@@ -126,9 +205,10 @@ def _op_form(update, val_def):
             trans = [_strip_T(b) for b in vbranches]
             return dict(kind='Lin', target=tgt, op=op, src=astx.path(E.left),
                         mats=[astx.dump(b) for b, _ in trans], trans=[not t for _, t in trans])
-    if isinstance(E, ast.Call) and astx.callee_attr(E) == 'bincount' and len(E.args) >= 2:
+    if isinstance(E, ast.Call) and astx.callee_attr(E) == 'bincount' and E.args and \
+            astx.arg(E, 1, 'weights') is not None:
         scatter = astx.path(E.args[0])
-        w = E.args[1]
+        w = astx.arg(E, 1, 'weights')
         if isinstance(w, ast.BinOp) and isinstance(w.op, ast.Mult):
             for g_, wt in ((w.left, w.right), (w.right, w.left)):
                 if isinstance(g_, ast.Subscript) and is_val(wt):
@@ -259,16 +339,27 @@ def map_functions(repo, out):
 def transfer(repo, out):
     """DefaultTransfer._transfer: fwd gather/assign and rev bincount-scatter/accumulate are adjoint."""
     fn = repo.func('openmdao/vectors/default_transfer.py', 'DefaultTransfer._transfer')
-    mi = mode_ifs(fn)
-    if len(mi) != 1:
+    pf = pathx.mode_paths(fn, is_mode_fwd, True)
+    pr = pathx.mode_paths(fn, is_mode_fwd, False)
+    if not mode_ifs(fn):
         raise AnalysisError('expected one mode test in DefaultTransfer._transfer')
-    st, fwd, rev = mi[0]
+    st = mode_ifs(fn)[0][0]
+    if len(pf) != 1 or len(pr) != 1 or pf[0].opaque_return or pr[0].opaque_return:
+        out.unsure(fn, st, 'fwd / rev specialisations of _transfer are not single straight-line paths')
+        return
+    fwd, rev = pf[0].stmts, pr[0].stmts
     # fwd: in_vec.set_val(out_vec.asarray()[OUT_INDS...], IN_INDS)
     fcall = [c for s in fwd for c in astx.calls(s) if astx.callee_attr(c) == 'set_val']
     rcall = [c for s in rev for c in astx.calls(s) if astx.callee_attr(c) in ('iadd', '__iadd__')]
     raug = [s for s in rev if isinstance(s, ast.AugAssign)]
     if len(fcall) != 1 or (len(rcall) + len(raug)) != 1:
         out.unsure(fn, st, 'fwd set_val / rev accumulate not found in the expected form')
+        return
+    if any(astx.callee_attr(c) in ('iadd', '__iadd__', 'set_val') for s in fwd for c in astx.calls(s)
+           if c is not fcall[0]) or any(isinstance(s, ast.AugAssign) for s in fwd) or \
+            any(astx.callee_attr(c) in ('set_val', 'iadd', '__iadd__') for s in rev for c in astx.calls(s)
+                if not rcall or c is not rcall[0]):
+        out.unsure(fn, st, 'a mode performs more than one vector update')
         return
     fc = fcall[0]
     if astx.path(astx.receiver(fc)) != 'in_vec' or len(fc.args) != 2:
@@ -294,12 +385,12 @@ def transfer(repo, out):
         tgt = astx.path(raug[0].target)
         E = raug[0].value
         accumulate = isinstance(raug[0].op, ast.Add)
-    if not (isinstance(E, ast.Call) and astx.callee_attr(E) == 'bincount' and len(E.args) >= 2):
+    w = astx.arg(E, 1, 'weights') if isinstance(E, ast.Call) else None
+    if not (isinstance(E, ast.Call) and astx.callee_attr(E) == 'bincount' and E.args and w is not None):
         out.bad(fn, rev[0], 'rev must scatter-add with bincount (duplicate source indices must accumulate)',
                 key='transfer-rev')
         return
     r_scatter = ind_name(E.args[0])
-    w = E.args[1]
     r_gather = ind_name(w.slice) if isinstance(w, ast.Subscript) else None
     r_src_ok = isinstance(w, ast.Subscript) and astx.mentions(w.value, 'in_vec')
     ml = astx.kwarg(E, 'minlength')
@@ -342,11 +433,21 @@ def prod(repo, out):
         mi = mode_ifs(fn)
         if len(mi) != 1:
             raise AnalysisError(f'{fn.ident}: mode test not found')
-        st, fwd, rev = mi[0]
-        rf, rr = _returns(fwd), _returns(rev)
-        if len(rf) != len(rr) or not rf:
+        st = mi[0][0]
+        pf = pathx.mode_paths(fn, is_mode_fwd, True)
+        pr = pathx.mode_paths(fn, is_mode_fwd, False)
+        if any(q.opaque_return or q.ret is None for q in pf + pr):
+            out.unsure(fn, st, 'a path of _prod does not end in `return <product>`')
+            continue
+
+        def ckey(q):
+            return tuple(sorted((astx.dump(t), v) for t, v in q.conds))
+        kf, kr = {ckey(q): q for q in pf}, {ckey(q): q for q in pr}
+        if set(kf) != set(kr) or not kf:
             out.bad(fn, st, 'fwd and rev branches have a different number of return sites', key='prod-shape')
             continue
+        rf = [kf[k].stmts[-1] for k in sorted(kf)]
+        rr = [kr[k].stmts[-1] for k in sorted(kf)]
         good = True
         for a, b in zip(rf, rr):
             ea, eb = a.value, b.value
@@ -431,15 +532,39 @@ def _role(e):
     return None
 
 
-def _updates(stmts):
+def _attr_aliases(fn):
+    """{local: 'self.attr'} for locals whose only binding in fn is `local = self.<attr path>`."""
+    seen = {}
+    for n in astx.walk(fn.node):
+        if isinstance(n, ast.Name) and isinstance(n.ctx, ast.Store):
+            seen.setdefault(n.id, []).append(getattr(n, '_parent', None))
+    out = {}
+    for k, pars in seen.items():
+        if len(pars) == 1 and isinstance(pars[0], ast.Assign) and len(pars[0].targets) == 1 and \
+                pars[0].targets[0].__class__ is ast.Name:
+            p = astx.path(pars[0].value)
+            if p and p.startswith('self.') and isinstance(pars[0].value, ast.Attribute):
+                out[k] = p
+    return out
+
+
+def _updates(stmts, aliases=None):
     """Linear updates in a branch: list of dicts(kind, target, src, sign, mat, mask)."""
     ups = []
     pending = {}   # local name -> (mat, src, masked_result?)
+    aliases = aliases or {}
+    _path = astx.path
+
+    class _A:        # astx.path with local matrix aliases resolved
+        @staticmethod
+        def path(e):
+            p = _path(e)
+            return aliases.get(p, p)
     for st in astx.walk_stmts(stmts):
         if isinstance(st, ast.Assign) and len(st.targets) == 1 and isinstance(st.targets[0], ast.Name):
             v = st.value
             if isinstance(v, ast.Call) and astx.callee_attr(v) == '_prod':
-                pending[st.targets[0].id] = dict(mat=astx.path(astx.receiver(v)), src=_role(v.args[0]) if v.args else None,
+                pending[st.targets[0].id] = dict(mat=_A.path(astx.receiver(v)), src=_role(v.args[0]) if v.args else None,
                                                  argmask=len(v.args) > 2 or astx.kwarg(v, 'mask') is not None,
                                                  resmask=False)
             continue
@@ -455,7 +580,7 @@ def _updates(stmts):
             v = st.value
             if isinstance(v, ast.Call) and astx.callee_attr(v) == '_prod':
                 ups.append(dict(kind='Prod', target=tr, src=_role(v.args[0]) if v.args else None, sign=sign,
-                                mat=astx.path(astx.receiver(v)),
+                                mat=_A.path(astx.receiver(v)),
                                 argmask=len(v.args) > 2 or astx.kwarg(v, 'mask') is not None, resmask=False, st=st))
             elif isinstance(v, ast.Name) and v.id in pending:
                 p = pending[v.id]
@@ -489,7 +614,8 @@ def jac_apply(repo, out):
             raise AnalysisError(f'{fn.ident}: no fwd/rev branch found')
         # use the outermost mode test(s)
         st, fwd, rev = mi[0]
-        uf, ur = _updates(fwd), _updates(rev)
+        al = _attr_aliases(fn)
+        uf, ur = _updates(fwd, al), _updates(rev, al)
         if len(uf) < npairs:
             raise AnalysisError(f'{fn.ident}: only {len(uf)} fwd updates recognised, expected {npairs}')
         used = set()
@@ -853,6 +979,30 @@ selftest(
     Mutant('maskcache-mode-only', _JAC, "mask = self._mask_caches[(d_inputs._names, mode)]", "mask = self._mask_caches[mode]", 'C02.maskcache',
            also=[(_JAC, "self._mask_caches[(d_inputs._names, mode)] = mask", "self._mask_caches[mode] = mask")]),
     Mutant('maskcache-key-mismatch', _JAC, "self._mask_caches[(d_inputs._names, mode)] = mask", "self._mask_caches[(mode, d_inputs._names)] = mask", 'C02.maskcache'),
+    Twin('twin-transfer-early-return', _DT,
+         "        if mode == 'fwd':\n            # this works whether the vecs have multi columns or not due to broadcasting\n            in_vec.set_val(out_vec.asarray()[self._out_inds.flat], self._in_inds)\n\n        else:  # rev\n            out_vec.iadd(np.bincount(self._out_inds, in_vec._get_data()[self._in_inds],\n                                     minlength=out_vec._data.size))",
+         "        if mode != 'fwd':\n            w = in_vec._get_data()[self._in_inds]\n            g = np.bincount(self._out_inds, weights=w, minlength=out_vec._data.size)\n            out_vec.iadd(g)\n            return\n        vals = out_vec.asarray()[self._out_inds.flat]\n        in_vec.set_val(vals, self._in_inds)"),
+    Mutant('transfer-early-return-swapped-temp', _DT,
+           "        if mode == 'fwd':\n            # this works whether the vecs have multi columns or not due to broadcasting\n            in_vec.set_val(out_vec.asarray()[self._out_inds.flat], self._in_inds)\n\n        else:  # rev\n            out_vec.iadd(np.bincount(self._out_inds, in_vec._get_data()[self._in_inds],\n                                     minlength=out_vec._data.size))",
+           "        if mode != 'fwd':\n            w = in_vec._get_data()[self._out_inds]\n            g = np.bincount(self._in_inds, weights=w, minlength=out_vec._data.size)\n            out_vec.iadd(g)\n            return\n        vals = out_vec.asarray()[self._out_inds.flat]\n        in_vec.set_val(vals, self._in_inds)", 'C02.transfer'),
+    Twin('twin-prod-operator-local', 'openmdao/matrices/coo_matrix.py',
+         "        if mode == 'fwd':\n            return self._matrix @ self._get_masked_arr(in_vec, mask)\n        else:  # rev\n            return self.transpose() @ self._get_masked_arr(in_vec, mask)",
+         "        if mode == 'fwd':\n            op = self._matrix\n        else:\n            op = self.transpose()\n        return op @ self._get_masked_arr(in_vec, mask)"),
+    Mutant('prod-operator-local-same', 'openmdao/matrices/coo_matrix.py',
+           "        if mode == 'fwd':\n            return self._matrix @ self._get_masked_arr(in_vec, mask)\n        else:  # rev\n            return self.transpose() @ self._get_masked_arr(in_vec, mask)",
+           "        if mode == 'fwd':\n            op = self._matrix\n        else:\n            op = self._matrix\n        return op @ self._get_masked_arr(in_vec, mask)", 'C02.prod'),
+    Twin('twin-subjac-weights-temp', SUBJAC,
+         "        val = self.info['val'] if randgen is None else self.get_rand_val(randgen)\n        self._in_view += bincount(self.cols, self._res_view[self.rows] * val,\n                                  minlength=self.parent_ncols)",
+         "        val = self.get_rand_val(randgen) if randgen is not None else self.info['val']\n        wts = self._res_view[self.rows] * val\n        self._in_view += bincount(self.cols, weights=wts, minlength=self.parent_ncols)"),
+    Mutant('subjac-weights-temp-wrong-gather', SUBJAC,
+           "        val = self.info['val'] if randgen is None else self.get_rand_val(randgen)\n        self._in_view += bincount(self.cols, self._res_view[self.rows] * val,\n                                  minlength=self.parent_ncols)",
+           "        val = self.get_rand_val(randgen) if randgen is not None else self.info['val']\n        wts = self._res_view[self.cols] * val\n        self._in_view += bincount(self.cols, weights=wts, minlength=self.parent_ncols)", 'C02.subjac'),
+    Mutant('subjac-randgen-branches-differ', SUBJAC,
+           "        val = self.info['val'].T if randgen is None else self.get_rand_val(randgen).T\n        self._in_view += val @ self._res_view",
+           "        val = self.get_rand_val(randgen) if randgen is not None else self.info['val'].T\n        self._in_view += val @ self._res_view", 'C02.subjac'),
+    Twin('twin-jac-apply-early-return-alias', _JAC,
+         "                    else:\n                        doutarr += self._dr_do_mtx._prod(dresids, mode)",
+         "                    else:\n                        drdo = self._dr_do_mtx\n                        doutarr += drdo._prod(dresids, mode)"),
     Twin('twin-maskcache-nocache', _JAC, "        try:\n            mask = self._mask_caches[(d_inputs._names, mode)]\n        except KeyError:\n            mask = d_inputs.get_mask()\n            self._mask_caches[(d_inputs._names, mode)] = mask\n\n        return mask",
          "        return d_inputs.get_mask()"),
     Twin('twin-subjac-rename', SUBJAC, "        val = self.info['val'] if randgen is None else self.get_rand_val(randgen)\n        self._res_view += val @ self._in_view",
